@@ -472,7 +472,9 @@ func (c *UDPConn) FindAddrByChannelNumber(chNum uint16) (net.Addr, bool) {
 		return nil, false
 	}
 
-	return b.addr, true
+	// A copy: the address ends up with the caller of ReadFrom, who owns
+	// what it is given, while the binding's own is used for its refreshes.
+	return cloneAddr(b.addr), true
 }
 
 func (c *UDPConn) maybeBind(bound *binding) {
